@@ -386,29 +386,29 @@ func report(p *Program, results []*Result, prop, tier, verif string, loadMs int6
 		"seed":        seedFromEnv(),
 		"level":       "proof",
 		"coverage": map[string]any{
-			"obligations":              len(claimed),
-			"discharged":               discharged,
-			"deferred_to_thorough_tier": deferred,
+			"obligations":                      len(claimed),
+			"discharged":                       discharged,
+			"deferred_to_thorough_tier":        deferred,
 			"violations_replayed_on_real_code": replayed,
-			"checker_cmd":              fmt.Sprintf("./check %s %s", prop, tier),
-			"trusted_base":             append([]string{"govc VC generator (/verif/govc)", "golang.org/x/tools/go/ssa v0.29.0", "z3 5.1.0 (z3-new), z3 4.8.12, cvc5 1.0 (portfolio, first definite answer)"}, tl...),
-			"samples":                  samples,
-			"functions_under_contract": fl,
-			"functions_count":          len(fl),
-			"backends":                 backends,
-			"solver_ms_total":          solverMs,
-			"attempted_not_claimed":    notClaimed,
-			"undecided":                undecided,
-			"known_findings_hit":       knownHit,
-			"bounded_standins_checked": boundedOK,
-			"bounded_standins_claimed": len(lock[prop+"#bounded"]),
-			"bounded_standins_samples": boundedList,
-			"bounded_note":             "bounded stand-ins (option unroll lemmas over literal inputs) are listed separately; they are not part of obligations/discharged and are never counted as proved",
-			"vacuity_checks":           vacuityChecked,
-			"vacuity_failures":         vacuityBad,
-			"explanation":              "each obligation is one SMT query generated by symbolic execution of the go/ssa form of /repo's working tree; 'discharged' counts obligations of the lock file proved unsat in this run",
+			"checker_cmd":                      fmt.Sprintf("./check %s %s", prop, tier),
+			"trusted_base":                     append([]string{"govc VC generator (/verif/govc)", "golang.org/x/tools/go/ssa v0.29.0", "z3 5.1.0 (z3-new), z3 4.8.12, cvc5 1.0 (portfolio, first definite answer)"}, tl...),
+			"samples":                          samples,
+			"functions_under_contract":         fl,
+			"functions_count":                  len(fl),
+			"backends":                         backends,
+			"solver_ms_total":                  solverMs,
+			"attempted_not_claimed":            notClaimed,
+			"undecided":                        undecided,
+			"known_findings_hit":               knownHit,
+			"bounded_standins_checked":         boundedOK,
+			"bounded_standins_claimed":         len(lock[prop+"#bounded"]),
+			"bounded_standins_samples":         boundedList,
+			"bounded_note":                     "bounded stand-ins (option unroll lemmas over literal inputs) are listed separately; they are not part of obligations/discharged and are never counted as proved",
+			"vacuity_checks":                   vacuityChecked,
+			"vacuity_failures":                 vacuityBad,
+			"explanation":                      "each obligation is one SMT query generated by symbolic execution of the go/ssa form of /repo's working tree; 'discharged' counts obligations of the lock file proved unsat in this run",
 		},
-		"assumptions": append(append([]string(nil), standingAssumptions...), tl...),
+		"assumptions": append(append(append([]string(nil), standingAssumptions...), tl...), propertyAssumptions(verif, prop)...),
 		"wall_s":      wall.Seconds(),
 		"violations":  violations,
 	}
@@ -417,6 +417,20 @@ func report(p *Program, results []*Result, prop, tier, verif string, loadMs int6
 	os.WriteFile(filepath.Join(verif, "evidence", prop+".json"), append(b, '\n'), 0o644)
 	fmt.Printf("evidence: %s obligations=%d discharged=%d deferred-to-thorough=%d violations=%d undecided=%d\n", prop, len(claimed), discharged, deferred, violations, len(undecided))
 	return code
+}
+
+// propertyAssumptions: assumptions specific to one property (assumed contracts, preconditions on callbacks,
+// parts covered by bounded stand-ins only), kept in /verif/assumptions.json next to the lock file.
+func propertyAssumptions(verif, prop string) []string {
+	b, err := os.ReadFile(filepath.Join(verif, "assumptions.json"))
+	if err != nil {
+		return nil
+	}
+	var m map[string][]string
+	if json.Unmarshal(b, &m) != nil {
+		return nil
+	}
+	return m[prop]
 }
 
 func truncate(s string, n int) string {
